@@ -206,12 +206,15 @@ def intFromBytes (bo : BO) (sign : Bool) (data : List Nat) : Int :=
     | .little => leToNat data
   if sign ∧ 2 * u ≥ 256 ^ data.length ∧ data.length > 0 then (u : Int) - (256 ^ data.length : Nat) else (u : Int)
 
+/-- `x` is representable in `n` octets (`int.to_bytes` does not raise `OverflowError`):
+unsigned `0 ≤ x < 256^n`, signed `-256^n/2 ≤ x < 256^n/2` -/
+def fitsInt (n : Nat) (sign : Bool) (x : Int) : Bool :=
+  if sign then decide (-((256 ^ n : Nat) : Int) ≤ 2 * x ∧ 2 * x < ((256 ^ n : Nat) : Int))
+  else decide (0 ≤ x ∧ x < ((256 ^ n : Nat) : Int))
+
 /-- `x.to_bytes(n, bo, signed=sign)`; `OverflowError` when `x` does not fit -/
 def intToBytes (n : Nat) (bo : BO) (sign : Bool) (x : Int) : Except Err (List Nat) :=
-  let fits : Bool :=
-    if sign then decide (-((256 ^ n : Nat) : Int) ≤ 2 * x ∧ 2 * x < ((256 ^ n : Nat) : Int))
-    else decide (0 ≤ x ∧ x < ((256 ^ n : Nat) : Int))
-  if fits then
+  if fitsInt n sign x then
     let le := natToLE n (x % ((256 ^ n : Nat) : Int)).toNat
     .ok (match bo with | .big => le.reverse | .little => le)
   else .error .overflow
